@@ -21,14 +21,14 @@ import (
 // recorder installed, seeded schedule perturbation at the hook points, a
 // continuous sampler of the on-disk state and optional readers / copies.
 type Run struct {
-	Dir   string // index directory (bleve level); scorch lives in Dir/store
-	WL    Workload
-	Seed  int64
-	Rec   *Recorder
-	Idx   bleve.Index
-	Sc    *scorch.Scorch
-	Perturb float64 // probability of a pause at a perturbation point (0 = none)
-	Think   time.Duration // max random pause of a writer between two batches (lets persister/purger catch up)
+	Dir      string // index directory (bleve level); scorch lives in Dir/store
+	WL       Workload
+	Seed     int64
+	Rec      *Recorder
+	Idx      bleve.Index
+	Sc       *scorch.Scorch
+	Perturb  float64       // probability of a pause at a perturbation point (0 = none)
+	Think    time.Duration // max random pause of a writer between two batches (lets persister/purger catch up)
 	MaxPause time.Duration
 
 	rng   *rand.Rand
